@@ -327,7 +327,13 @@ func session(r *gen.R, t *gen.Trace, limit int) {
 			})
 			t.Line("pred", codec.UpgradeFeatureMap[key] != 0, "pred %s %d %d => %s", hexs(key), h, tol, res)
 		default:
-			t.Line("restart", true, "restart => %s", e.restart())
+			rr := e.restart()
+			t.Line("restart", true, "restart => %s", rr)
+			if rr == "PANIC" {
+				// NewPocketCoreApp panicked: this node cannot boot any more; the half-initialised
+				// globals of the failed boot are not a state of any running node, so the session ends
+				return
+			}
 		}
 	}
 	// every session ends with a restart
